@@ -263,15 +263,24 @@ impl TraceFormat for HiDocFormat {
 		write!(out, "{}", error.error())?;
 		if let ErrorKind::ImportSyntaxError { path, error } = error.error() {
 			writeln!(out)?;
-			let offset = error.location.offset;
-			let mut builder = SnippetBuilder::new(path.code());
-			builder
-				.error(Text::fragment("syntax error", Formatting::default()))
-				.range(offset..=offset)
-				.build();
-			let source = builder.build();
-			let ansi = source_to_ansi(&source);
-			write!(out, "{ansi}")?;
+			let code = path.code();
+			// Error at the end of file is located past the last character, point at the last character instead
+			let offset = if error.location.offset >= code.len() {
+				code.char_indices().next_back().map(|(i, _)| i)
+			} else {
+				Some(error.location.offset)
+			};
+			// Nothing to annotate in an empty file
+			if let Some(offset) = offset {
+				let mut builder = SnippetBuilder::new(code);
+				builder
+					.error(Text::fragment("syntax error", Formatting::default()))
+					.range(offset..=offset)
+					.build();
+				let source = builder.build();
+				let ansi = source_to_ansi(&source);
+				write!(out, "{ansi}")?;
+			}
 		}
 		let trace = &error.trace();
 		let snippet_builder: RefCell<Option<SnippetBuilder>> = RefCell::new(None);
